@@ -58,6 +58,55 @@ def judge_one(d, toks):
     return None
 
 
+MACRO_G = """grammar;
+Sp<T>: (usize, T, usize) = <l:@L> <t:T> <r:@R> => (l, t, r);
+Gap<A, B>: (usize, usize, usize) = A <m:@R> <q:@L> B <e:@R> => (m, q, e);
+Opt<T>: (usize, usize) = <l:@L> T? <r:@R> => (l, r);
+pub S: Vec<(usize, String, usize)> = { <v:S> <x:Sp<Id>> => { let mut v = v; v.push(x); v }, => vec![] };
+Id: String = r"[a-z]+" => <>.to_string();
+pub P: (usize, usize, usize) = Gap<"(", ")">;
+pub O: ((usize, usize), (usize, String, usize)) = <Opt<"!">> <Sp<Id>>;
+"""
+# (parser, input, expected Debug text): token spans are byte offsets; @R is the end of what precedes, @L the
+# start of what follows -- also inside macro definitions
+MACRO_CASES = [
+    ("S", "ab  cd e", 'OK [(0, "ab", 2), (4, "cd", 6), (7, "e", 8)]'),
+    ("S", "  x", 'OK [(2, "x", 3)]'),
+    ("P", "(   )", "OK (1, 4, 5)"),
+    ("P", "()", "OK (1, 1, 2)"),
+    ("O", "!  ab", 'OK ((0, 1), (3, "ab", 5))'),
+    ("O", "  ab", 'OK ((2, 2), (2, "ab", 4))'),
+]
+
+
+def macro_tier(rep, lal):
+    """look-arounds written inside macro definitions (string-input parsers, both back ends)"""
+    import sgb
+    units = []
+    for v in ("t", "a"):
+        text = MACRO_G if v == "t" else MACRO_G.replace("grammar;", "#[recursive_ascent] grammar;", 1)
+        st, rs, out = sgb.generate(lal, "c06mac" + v, text)
+        if st != "ok":
+            rep.violation("macro-lookaround-grammar-rejected", {"what": "a grammar with @L/@R inside macro definitions was not turned into a parser", "grammar_text": MACRO_G, "output": out[-1500:]})
+            return 0, 1
+        units.append({"name": "c06mac" + v, "rs": rs, "parsers": ["S", "P", "O"]})
+    ok, out, binary = sgb.build(units)
+    if not ok:
+        rep.violation("generated-code-does-not-compile", {"what": "rustc rejects the parser generated for look-arounds inside macros", "rustc": out[-2500:]})
+        return 0, 1
+    cases = [(u["name"], pz, inp) for u in units for (pz, inp, want) in MACRO_CASES]
+    res = sgb.run(binary, cases)
+    nb = 0
+    for (m, pz, inp), got, want in zip(cases, res, [w for u in units for (_, _, w) in MACRO_CASES]):
+        if got != want:
+            nb += 1
+            if nb <= 2:
+                rep.violation("lookaround-inside-macro" + (":ascent" if m.endswith("a") else ":table"),
+                              {"what": "@L/@R written inside a macro definition give %s on %r, the documented values are %s" % (got, inp, want),
+                               "grammar_text": MACRO_G, "parser": pz, "input": inp, "got": got, "want": want})
+    return len(cases), nb
+
+
 def run(tier):
     t0 = time.time()
     rep = vlib.Reporter(PROP)
@@ -84,7 +133,8 @@ def run(tier):
                 items = lrengine.tok_items(g, {"tnames": ['"%s"' % t for t in g.terms]}, w, r)
                 cases.append((u["name"], st, items, None, [])); meta.append(u)
     res = cgb.run(binary, cases)
-    nbad = 0
+    nmac, macbad = macro_tier(rep, lal)
+    nbad = macbad
     nempty = nprobe = 0
     for (m, st, items, _, _), d, u in zip(cases, res, meta):
         toks = [{"lo": it[3], "hi": it[4]} for it in items]
@@ -104,7 +154,7 @@ def run(tier):
            "checker_cmd": "make -C coq; coqc Props/C06.v; cargo build harness/cgb; run; judge spans",
            "trusted_base": vlib.TRUSTED_COMMON + ["rustc", "harness/cgb/src/rt.rs"],
            "theorems": names, "evaluations": len(cases), "distinct_nontrivial": distinct,
-           "rule": "grammars (corpus + random, many empty productions), both back ends, @L/@R probes sprinkled between symbols; accepted inputs with "
+           "macro_lookaround_cases": nmac, "rule": "grammars (corpus + random, many empty productions), both back ends, @L/@R probes sprinkled between symbols; accepted inputs with "
                    "distinct gapped token spans incl. a leading gap; non-trivial = accepted input whose tree has at least one empty (zero-width) node",
            "distribution": {"parsers": len(units), "accepted": sum(1 for d in res if d["kind"] == "ok"), "empty_nodes": nempty, "lookaround_probes": nprobe},
            "samples": [{"grammar": meta[0]["g"].name, "items": [list(x) for x in cases[0][2]], "result": cgcheck.norm_cgb(res[0])}]}
